@@ -37,6 +37,10 @@ type c36Case struct {
 
 type c36Plan struct {
 	Cases []c36Case `json:"cases"`
+	// Interfere: the client reads each response slowly through a tiny receive window while
+	// another connection is served by the adaptor: buffers the adaptor recycles must not
+	// still be referenced by a response that is on its way out
+	Interfere bool `json:"slow_reader_and_concurrent_request,omitempty"`
 }
 
 func init() { scenarios["C36"] = scenC36 }
@@ -76,6 +80,7 @@ func scenC36(e *Env) func() {
 		}
 		p.Cases = append(p.Cases, c)
 	}
+	p.Interfere = e.Chance(30)
 	e.Sample = p
 	e.Cfg.Holds, e.Cfg.HoldMax = Pick(e, 0, 0, 2), 20*time.Millisecond
 	return func() { c36Run(e, p) }
@@ -209,7 +214,9 @@ func c36Run(e *Env, p *c36Plan) {
 	k := NewServerKit(e, s)
 	k.Handle = func(ctx *fasthttp.RequestCtx, inv *Inv) {
 		id := string(ctx.Request.Header.Peek("X-Case"))
+		mu.Lock()
 		c := byID[id]
+		mu.Unlock()
 		if c == nil {
 			return
 		}
@@ -232,9 +239,34 @@ func c36Run(e *Env, p *c36Plan) {
 		if err != nil {
 			return
 		}
+		var intfDone chan struct{}
+		if p.Interfere {
+			sc.C.Peer().F.Window = 64 // the server's writes wait for the reader
+			x := &c36Case{ID: "x" + c.ID, Method: "GET", Target: "/interferer", Prog: []c36Op{{Op: "write", N: 6000}, {Op: "write", N: 3000}}}
+			x.Headers = [][2]string{{"X-Case", x.ID}}
+			mu.Lock()
+			byID[x.ID] = x
+			mu.Unlock()
+			intfDone = make(chan struct{})
+			Go("c36-interferer", func() {
+				defer close(intfDone)
+				time.Sleep(5 * time.Millisecond)
+				if sc2, err := k.NewSeqClient("10.0.36.2", simnet.Faults{}); err == nil {
+					sc2.Send(c36Request(x), nil)
+					sc2.ReadResp("GET", time.Minute)
+					sc2.C.Close()
+				}
+			})
+		}
 		sc.Send(c36Request(c), nil)
+		if p.Interfere {
+			time.Sleep(20 * time.Millisecond)
+		}
 		got, _, gerr := sc.ReadResp(c.Method, time.Minute)
 		sc.C.Close()
+		if intfDone != nil {
+			<-intfDone
+		}
 		e.Ob(1)
 		if refErr != nil {
 			e.Probe("reference-failed")
